@@ -1,5 +1,5 @@
-(* C27 — proofs. *)
-From Coq Require Import List NArith Bool Lia.
+(* C27 — proofs, part 1: the loop of resolve() characterised over the flattened list of entries. *)
+From Coq Require Import List NArith Bool Lia Permutation.
 From Verif.C27 Require Import Model Spec.
 Import ListNotations.
 Open Scope N_scope.
@@ -12,11 +12,803 @@ Section P.
   Variable known : K -> option (pmeta K V).
   Variable parse : K -> R -> option V.
   Variable src_local : N -> bool.
+  Variable kleb : K -> K -> bool.
+  Variable srcs : list N.
+
+  Hypothesis keqb_eq : forall a b, keqb a b = true <-> a = b.
+  (* knownParams is keyed by the lower-cased field name *)
+  Hypothesis known_name : forall lk m, known lk = Some m -> lower (pm_name m) = lk.
+
+  Notation step' := (step keqb lower is_none known parse src_local).
+  Notation interp' := (interp is_none parse).
+  Notation rst' := (rst K R V).
 
   Lemma step_local_skipped : forall fixed src st k rv m,
     known (lower k) = Some m -> pm_local m = true -> src_local src = false ->
-    step keqb lower is_none known parse src_local fixed src st (k, rv) = Some st.
+    step' fixed src st (k, rv) = Some st.
   Proof.
     intros. unfold step. rewrite H, H0, H1. reflexivity.
   Qed.
+
+  Lemma keqb_refl : forall a, keqb a a = true.
+  Proof. intros; now apply keqb_eq. Qed.
+  Lemma keqb_neq : forall a b, a <> b -> keqb a b = false.
+  Proof. intros a b H. destruct (keqb a b) eqn:E; auto. apply keqb_eq in E. contradiction. Qed.
+
+  Lemma aget_aset_same : forall B k (v : B) l, aget keqb k (aset keqb k v l) = Some v.
+  Proof.
+    induction l as [|[k' v'] l IH]; simpl.
+    - now rewrite keqb_refl.
+    - destruct (keqb k k') eqn:E; simpl.
+      + now rewrite keqb_refl.
+      + now rewrite E.
+  Qed.
+  Lemma aget_aset_other : forall B k k' (v : B) l, k <> k' -> aget keqb k' (aset keqb k v l) = aget keqb k' l.
+  Proof.
+    induction l as [|[k2 v2] l IH]; intros Hn; simpl.
+    - rewrite keqb_neq; auto.
+    - destruct (keqb k k2) eqn:E; simpl.
+      + apply keqb_eq in E. subst k2. assert (Hn' : k' <> k) by congruence.
+        rewrite !(keqb_neq k' k) by exact Hn'. reflexivity.
+      + destruct (keqb k' k2); auto.
+  Qed.
+
+  (* ---- flattened entries: (source, (name, raw)) in processing order ---- *)
+  Notation ent := (N * (K * R))%type.
+  Definition stepf (fixed : bool) (st : rst') (t : ent) := step' fixed (fst t) st (snd t).
+  Fixpoint run_flat (fixed : bool) (L : list ent) (st : rst') : option rst' :=
+    match L with
+    | [] => Some st
+    | t :: L' => match stepf fixed st t with None => None | Some st' => run_flat fixed L' st' end
+    end.
+
+  Lemma run_flat_app : forall fixed A B st,
+    run_flat fixed (A ++ B) st = match run_flat fixed A st with None => None | Some st' => run_flat fixed B st' end.
+  Proof.
+    induction A as [|a A IH]; intros; simpl; auto.
+    destruct (stepf fixed st a); auto.
+  Qed.
+
+  Lemma run_kvs_flat : forall fixed s kvs st,
+    run_kvs keqb lower is_none known parse src_local fixed s kvs st = run_flat fixed (map (pair s) kvs) st.
+  Proof.
+    induction kvs as [|kv kvs IH]; intros; simpl; auto.
+    unfold stepf; simpl. destruct (step' fixed s st kv); auto.
+  Qed.
+
+  Definition flat (c : cfg K R) (ss : list N) : list ent := flat_map (fun s => map (pair s) (src_kvs c s)) ss.
+
+  Lemma run_srcs_flat : forall fixed c ss st,
+    run_srcs keqb kleb lower is_none known parse src_local fixed false c ss st = run_flat fixed (flat c ss) st.
+  Proof.
+    induction ss as [|s ss IH]; intros; simpl; auto.
+    rewrite run_flat_app, run_kvs_flat. destruct (run_flat fixed (map (pair s) (src_kvs c s)) st); auto.
+  Qed.
+
+  (* ---- which entries count ---- *)
+  Definition lk_of (t : ent) : K := lower (fst (snd t)).
+  Definition rv_of (t : ent) : R := snd (snd t).
+  (* not a local-only parameter read from a non-local source *)
+  Definition elig (t : ent) : bool :=
+    match known (lk_of t) with
+    | Some m => negb (pm_local m && negb (src_local (fst t)))
+    | None => true
+    end.
+  Definition hits (lk : K) (t : ent) : bool := keqb (lk_of t) lk && elig t.
+  (* the source of the first entry for lk: the highest-priority source that sets it (0 if none) *)
+  Definition top (P : list ent) (lk : K) : N :=
+    match find (hits lk) P with Some t => fst t | None => 0 end.
+  Definition wins (P : list ent) (lk : K) (t : ent) : bool := hits lk t && (fst t =? top P lk).
+  Definition winners (P : list ent) (lk : K) : list ent := filter (wins P lk) P.
+  Definition lastval (P : list ent) (lk : K) (m : pmeta K V) : option V :=
+    match rev (winners P lk) with
+    | [] => None
+    | t :: _ => interp' m (rv_of t)
+    end.
+  Definition FatalIn (fixed : bool) (P : list ent) : Prop :=
+    exists t m, In t P /\ known (lk_of t) = Some m /\ elig t = true
+                /\ (fixed = true -> fst t = top P (lk_of t)) /\ interp' m (rv_of t) = None.
+
+  Fixpoint desc (L : list ent) : Prop :=
+    match L with
+    | [] => True
+    | t :: L' => (forall u, In u L' -> fst u <= fst t) /\ desc L'
+    end.
+
+  Lemma desc_snoc : forall P t, desc (P ++ [t]) -> desc P /\ forall u, In u P -> fst t <= fst u.
+  Proof.
+    induction P as [|a P IH]; intros t H; simpl in *.
+    - split; auto. intros u [].
+    - destruct H as [H1 H2]. destruct (IH _ H2) as [H3 H4]. split.
+      + split; auto. intros u Hu. apply H1. apply in_or_app; auto.
+      + intros u [->|Hu]; auto. apply H1. apply in_or_app; right; simpl; auto.
+  Qed.
+
+  Lemma desc_app : forall A B, desc A -> desc B -> (forall a b, In a A -> In b B -> fst b <= fst a) -> desc (A ++ B).
+  Proof.
+    induction A as [|a A IH]; intros B HA HB H; simpl in *; auto.
+    destruct HA as [H1 H2]. split.
+    - intros u Hu. apply in_app_or in Hu. destruct Hu; auto.
+    - apply IH; auto.
+  Qed.
+
+  Lemma find_snoc : forall (f : ent -> bool) P t,
+    find f (P ++ [t]) = match find f P with Some u => Some u | None => if f t then Some t else None end.
+  Proof.
+    induction P as [|a P IH]; intros; simpl; auto.
+    destruct (f a); auto.
+  Qed.
+
+  Lemma top_snoc : forall P t lk,
+    top (P ++ [t]) lk = match find (hits lk) P with Some u => fst u | None => if hits lk t then fst t else 0 end.
+  Proof.
+    intros. unfold top. rewrite find_snoc. destruct (find (hits lk) P); auto. destruct (hits lk t); auto.
+  Qed.
+
+  Lemma top_snoc_found : forall P t lk u, find (hits lk) P = Some u -> top (P ++ [t]) lk = top P lk.
+  Proof. intros. rewrite top_snoc. unfold top. now rewrite H. Qed.
+
+  Lemma find_none_all : forall (f : ent -> bool) P, find f P = None -> forall u, In u P -> f u = false.
+  Proof. intros f P H u Hu. apply (find_none f P H u Hu). Qed.
+
+  Lemma filter_ext_in' : forall (f g : ent -> bool) P, (forall u, In u P -> f u = g u) -> filter f P = filter g P.
+  Proof.
+    induction P as [|a P IH]; intros H; simpl; auto.
+    rewrite (H a) by (simpl; auto). rewrite IH; auto. intros; apply H; simpl; auto.
+  Qed.
+
+  Lemma winners_snoc : forall P t lk,
+    winners (P ++ [t]) lk = winners P lk ++ (if wins (P ++ [t]) lk t then [t] else []).
+  Proof.
+    intros. unfold winners. rewrite filter_app. simpl. f_equal.
+    - apply filter_ext_in'. intros u Hu. unfold wins.
+      destruct (find (hits lk) P) eqn:E.
+      + now rewrite (top_snoc_found P t lk _ E).
+      + rewrite (find_none_all _ _ E u Hu). reflexivity.
+  Qed.
+
+  Lemma winners_snoc_miss : forall P t lk, hits lk t = false -> winners (P ++ [t]) lk = winners P lk.
+  Proof. intros. rewrite winners_snoc. unfold wins. rewrite H. simpl. now rewrite app_nil_r. Qed.
+
+  Lemma lastval_snoc_miss : forall P t lk m, wins (P ++ [t]) lk t = false -> lastval (P ++ [t]) lk m = lastval P lk m.
+  Proof. intros. unfold lastval. rewrite winners_snoc, H, app_nil_r. reflexivity. Qed.
+
+  Lemma lastval_snoc_hit : forall P t lk m, wins (P ++ [t]) lk t = true -> lastval (P ++ [t]) lk m = interp' m (rv_of t).
+  Proof. intros. unfold lastval. rewrite winners_snoc, H, rev_app_distr. reflexivity. Qed.
+
+  Lemma top_pos_or : forall P lk, (forall u, In u P -> 0 < fst u) ->
+    (find (hits lk) P = None /\ top P lk = 0) \/ (exists u, find (hits lk) P = Some u /\ In u P /\ hits lk u = true /\ top P lk = fst u /\ 0 < fst u).
+  Proof.
+    intros P lk Hpos. unfold top. destruct (find (hits lk) P) as [e|] eqn:E.
+    - right. exists e. destruct (find_some _ _ E) as [Hin Hh]. repeat split; auto.
+    - left; auto.
+  Qed.
+
+  Lemma hits_self : forall t, elig t = true -> hits (lk_of t) t = true.
+  Proof. intros. unfold hits. now rewrite keqb_refl, H. Qed.
+
+  Lemma hits_lk : forall lk t, hits lk t = true -> lk_of t = lk /\ elig t = true.
+  Proof. unfold hits; intros. apply andb_true_iff in H. destruct H as [H1 H2]. apply keqb_eq in H1. auto. Qed.
+
+  (* a winner-witness of P stays one in P ++ [t] *)
+  Lemma fatal_mono : forall fixed P t, FatalIn fixed P -> FatalIn fixed (P ++ [t]).
+  Proof.
+    intros fixed P t (u & m & Hin & Hk & He & Ht & Hi).
+    exists u, m. repeat split; auto.
+    - apply in_or_app; auto.
+    - intros Hf. specialize (Ht Hf).
+      assert (Hh : hits (lk_of u) u = true) by now apply hits_self.
+      destruct (find (hits (lk_of u)) P) eqn:E.
+      + now rewrite (top_snoc_found P t (lk_of u) _ E).
+      + rewrite (find_none_all _ _ E u Hin) in Hh. discriminate.
+  Qed.
+
+  Lemma fatal_snoc_inv : forall fixed P t, FatalIn fixed (P ++ [t]) ->
+    FatalIn fixed P \/ (exists m, known (lk_of t) = Some m /\ elig t = true
+                        /\ (fixed = true -> fst t = top (P ++ [t]) (lk_of t)) /\ interp' m (rv_of t) = None).
+  Proof.
+    intros fixed P t (u & m & Hin & Hk & He & Ht & Hi).
+    apply in_app_or in Hin. destruct Hin as [Hin|[<-|[]]].
+    - left. exists u, m. repeat split; auto. intros Hf. specialize (Ht Hf).
+      assert (Hh : hits (lk_of u) u = true) by now apply hits_self.
+      destruct (find (hits (lk_of u)) P) eqn:E.
+      + now rewrite (top_snoc_found P t (lk_of u) _ E) in Ht.
+      + rewrite (find_none_all _ _ E u Hin) in Hh. discriminate.
+    - right. exists m. auto.
+  Qed.
+
+  Definition Inv (fixed : bool) (P : list ent) (r : option rst') : Prop :=
+    match r with
+    | None => FatalIn fixed P
+    | Some st => ~ FatalIn fixed P
+                 /\ (forall lk, cur_source keqb st lk = top P lk)
+                 /\ (forall lk m, known lk = Some m -> aget keqb (pm_name m) (r_vals st) = lastval P lk m)
+    end.
+
+  Lemma cur_source_aset : forall (st : rst') lk s lk' (vals : list (K * V)) (raws : list (K * R)),
+    cur_source keqb (mk_rst vals raws (aset keqb lk s (r_n2s st))) lk' = if keqb lk lk' then s else cur_source keqb st lk'.
+  Proof.
+    intros. unfold cur_source; simpl. destruct (keqb lk lk') eqn:E.
+    - apply keqb_eq in E. subst. now rewrite aget_aset_same.
+    - rewrite aget_aset_other; auto. intros ->. now rewrite keqb_refl in E.
+  Qed.
+
+  Lemma inv_step : forall fixed P t st,
+    desc (P ++ [t]) -> (forall u, In u (P ++ [t]) -> 0 < fst u) ->
+    Inv fixed P (Some st) -> Inv fixed (P ++ [t]) (stepf fixed st t).
+  Proof.
+    intros fixed P t st Hd Hpos (Hnf & Hcur & Hval).
+    destruct (desc_snoc _ _ Hd) as [HdP Hle].
+    assert (HposP : forall u, In u P -> 0 < fst u) by (intros; apply Hpos, in_or_app; auto).
+    assert (Hpt : 0 < fst t) by (apply Hpos, in_or_app; right; simpl; auto).
+    destruct t as [s [k rv]]. unfold stepf; simpl fst in *; simpl snd in *.
+    set (t := (s, (k, rv))) in *. remember (lower k) as lkt eqn:Hlkt.
+    assert (Hlk : lk_of t = lkt) by (rewrite Hlkt; reflexivity).
+    unfold step. rewrite <- Hlkt. rewrite (Hcur lkt).
+    (* relation between s and the current top *)
+    assert (Htop : (top P lkt = 0 /\ find (hits lkt) P = None) \/
+                   (exists u, find (hits lkt) P = Some u /\ top P lkt = fst u /\ s <= fst u /\ 0 < fst u)).
+    { destruct (top_pos_or P lkt HposP) as [[E1 E2]|(u & E1 & E2 & E3 & E4 & E5)]; [left; auto|right].
+      exists u. repeat split; auto. }
+    destruct (known lkt) as [m|] eqn:Hk.
+    - (* known parameter *)
+      assert (Helig : elig t = negb (pm_local m && negb (src_local s))).
+      { unfold elig. rewrite Hlk, Hk. reflexivity. }
+      destruct (pm_local m && negb (src_local s)) eqn:Hloc.
+      + (* local-only from a non-local source: skipped *)
+        simpl in Helig.
+        assert (Hmiss : forall lk, hits lk t = false) by (intros; unfold hits; rewrite Helig; apply andb_false_r).
+        simpl. repeat split.
+        * intros HF. destruct (fatal_snoc_inv _ _ _ HF) as [HF'|(m' & _ & He & _)]; auto. congruence.
+        * intros lk. rewrite Hcur, top_snoc. unfold top. destruct (find (hits lk) P); auto. now rewrite Hmiss.
+        * intros lk m' Hk'. rewrite lastval_snoc_miss; auto. unfold wins. now rewrite Hmiss.
+      + simpl in Helig.
+        assert (Hhit : hits lkt t = true) by (rewrite <- Hlk; now apply hits_self).
+        assert (Hother : forall lk, lk <> lkt -> hits lk t = false).
+        { intros lk Hn. unfold hits. rewrite Hlk. rewrite keqb_neq; auto. }
+        (* is t shadowed? *)
+        destruct (s <? top P lkt) eqn:Hsh.
+        * (* shadowed *)
+          apply N.ltb_lt in Hsh.
+          destruct Htop as [[E1 E2]|(u & E1 & E2 & E3 & E4)]; [lia|].
+          assert (HtopP' : forall lk, top (P ++ [t]) lk = top P lk).
+          { intros lk. destruct (keqb lk lkt) eqn:E.
+            - apply keqb_eq in E. subst lk. now apply (top_snoc_found P t lkt _ E1).
+            - rewrite top_snoc. unfold top. destruct (find (hits lk) P); auto. rewrite Hother; auto.
+              intros ->. now rewrite keqb_refl in E. }
+          assert (Hnw : forall lk, wins (P ++ [t]) lk t = false).
+          { intros lk. unfold wins. destruct (keqb lk lkt) eqn:E.
+            - apply keqb_eq in E. subst lk. rewrite HtopP'. simpl fst.
+              replace (s =? top P lkt) with false; [apply andb_false_r|]. symmetry. apply N.eqb_neq. lia.
+            - rewrite Hother; auto. intros ->. now rewrite keqb_refl in E. }
+          assert (Hkeep : Inv fixed (P ++ [t]) (Some st) \/ True) by auto.
+          assert (Hst : interp' m rv <> None \/ fixed = true ->
+                        ~ FatalIn fixed (P ++ [t])
+                        /\ (forall lk, cur_source keqb st lk = top (P ++ [t]) lk)
+                        /\ (forall lk m0, known lk = Some m0 -> aget keqb (pm_name m0) (r_vals st) = lastval (P ++ [t]) lk m0)).
+          { intros Hc. repeat split.
+            - intros HF. destruct (fatal_snoc_inv _ _ _ HF) as [HF'|(m' & Hk' & _ & Hf & Hi)]; auto.
+              rewrite Hlk, Hk in Hk'. inversion Hk'; subst m'.
+              destruct Hc as [Hc|Hc]; [now apply Hc|].
+              specialize (Hf Hc). rewrite Hlk, HtopP' in Hf. simpl in Hf. lia.
+            - intros lk. now rewrite HtopP'.
+            - intros lk m0 Hk0. rewrite lastval_snoc_miss; auto. }
+          destruct fixed; simpl.
+          -- apply Hst; auto.
+          -- destruct (interp' m rv) as [v|] eqn:Hi.
+             ++ apply Hst. left; discriminate.
+             ++ simpl. exists t, m.
+                split; [apply in_or_app; right; simpl; auto|].
+                split; [now rewrite Hlk|]. split; [now rewrite Helig|].
+                split; [discriminate|exact Hi].
+        * (* not shadowed: s = the top source for lkt after this entry *)
+          apply N.ltb_ge in Hsh.
+          assert (HtopT : top (P ++ [t]) lkt = s).
+          { rewrite top_snoc. destruct Htop as [[E1 E2]|(u & E1 & E2 & E3 & E4)].
+            - rewrite E2, Hhit. reflexivity.
+            - rewrite E1. lia. }
+          assert (HtopO : forall lk, lk <> lkt -> top (P ++ [t]) lk = top P lk).
+          { intros lk Hn. rewrite top_snoc. unfold top. destruct (find (hits lk) P); auto. rewrite Hother; auto. }
+          assert (Hw : wins (P ++ [t]) lkt t = true).
+          { unfold wins. rewrite Hhit, HtopT. simpl. apply N.eqb_refl. }
+          rewrite andb_false_r.
+          destruct (interp' m rv) as [v|] eqn:Hi.
+          -- simpl. repeat split.
+             ++ intros HF. destruct (fatal_snoc_inv _ _ _ HF) as [HF'|(m' & Hk' & _ & _ & Hi')]; auto.
+                rewrite Hlk, Hk in Hk'. inversion Hk'; subst m'. unfold rv_of in Hi'; simpl in Hi'. congruence.
+             ++ intros lk. rewrite cur_source_aset. destruct (keqb lkt lk) eqn:E.
+                ** apply keqb_eq in E. subst lk. symmetry. exact HtopT.
+                ** rewrite HtopO; auto. intros ->. now rewrite keqb_refl in E.
+             ++ intros lk m0 Hk0. simpl. destruct (keqb lkt lk) eqn:E.
+                ** apply keqb_eq in E. subst lk. rewrite Hk in Hk0. inversion Hk0; subst m0.
+                   rewrite aget_aset_same, lastval_snoc_hit; auto.
+                ** assert (Hn : lk <> lkt) by (intros ->; now rewrite keqb_refl in E).
+                   rewrite aget_aset_other.
+                   --- rewrite lastval_snoc_miss; auto. unfold wins. rewrite Hother; auto.
+                   --- intros Heq. apply Hn. rewrite <- (known_name _ _ Hk0), <- (known_name _ _ Hk). now rewrite Heq.
+          -- simpl. exists t, m.
+             split; [apply in_or_app; right; simpl; auto|].
+             split; [now rewrite Hlk|]. split; [now rewrite Helig|].
+             split; [intros _; now rewrite Hlk, HtopT|exact Hi].
+    - (* unknown name: raw value stashed *)
+      assert (Helig : elig t = true) by (unfold elig; now rewrite Hlk, Hk).
+      assert (Hhit : hits lkt t = true) by (rewrite <- Hlk; now apply hits_self).
+      assert (Hother : forall lk, lk <> lkt -> hits lk t = false).
+      { intros lk Hn. unfold hits. rewrite Hlk. rewrite keqb_neq; auto. }
+      assert (HtopO : forall lk, lk <> lkt -> top (P ++ [t]) lk = top P lk).
+      { intros lk Hn. rewrite top_snoc. unfold top. destruct (find (hits lk) P); auto. rewrite Hother; auto. }
+      assert (Hnf' : ~ FatalIn fixed (P ++ [t])).
+      { intros HF. destruct (fatal_snoc_inv _ _ _ HF) as [HF'|(m' & Hk' & _)]; auto. rewrite Hlk, Hk in Hk'. discriminate. }
+      assert (Hvals : forall lk m0, known lk = Some m0 -> lastval (P ++ [t]) lk m0 = lastval P lk m0).
+      { intros lk m0 Hk0. apply lastval_snoc_miss. unfold wins. rewrite Hother; auto. intros ->. congruence. }
+      destruct (top P lkt <=? s) eqn:Hc; simpl.
+      + apply N.leb_le in Hc. repeat split; auto.
+        * intros lk. rewrite cur_source_aset. destruct (keqb lkt lk) eqn:E.
+          -- apply keqb_eq in E. subst lk. rewrite top_snoc.
+             destruct Htop as [[E1 E2]|(u & E1 & E2 & E3 & E4)].
+             ++ now rewrite E2, Hhit.
+             ++ rewrite E1. lia.
+          -- rewrite HtopO; auto. intros ->. now rewrite keqb_refl in E.
+        * intros lk m0 Hk0. simpl. rewrite Hvals; auto.
+      + apply N.leb_gt in Hc. repeat split; auto.
+        * intros lk. destruct (keqb lkt lk) eqn:E.
+          -- apply keqb_eq in E. subst lk.
+             destruct Htop as [[E1 E2]|(u & E1 & E2 & E3 & E4)]; [lia|].
+             now rewrite (top_snoc_found P t lkt _ E1).
+          -- rewrite HtopO; auto. intros ->. now rewrite keqb_refl in E.
+        * intros lk m0 Hk0. rewrite Hvals; auto.
+  Qed.
+
+  Lemma inv_run : forall fixed P, desc P -> (forall u, In u P -> 0 < fst u) ->
+    Inv fixed P (run_flat fixed P (rst0 K R V)).
+  Proof.
+    intros fixed P. induction P as [|t P IH] using rev_ind; intros Hd Hpos.
+    - simpl. split; [|split].
+      + intros (u & m & [] & _).
+      + intros lk. reflexivity.
+      + intros lk m _. reflexivity.
+    - destruct (desc_snoc _ _ Hd) as [HdP _].
+      assert (HposP : forall u, In u P -> 0 < fst u) by (intros; apply Hpos, in_or_app; auto).
+      specialize (IH HdP HposP). rewrite run_flat_app.
+      destruct (run_flat fixed P (rst0 K R V)) as [st|] eqn:E.
+      + simpl. pose proof (inv_step fixed P t st Hd Hpos IH) as H. destruct (stepf fixed st t); auto.
+      + simpl in *. now apply fatal_mono.
+  Qed.
+
+  (* ================= part 2: from the flattened list to sources and to Spec.v ================= *)
+  Notation value_of' := (value_of is_none parse).
+  Notation setters' := (setters keqb lower src_local).
+  Notation deciding' := (deciding keqb lower srcs src_local).
+  Notation resolve' := (resolve keqb kleb lower is_none known parse srcs src_local).
+
+  Fixpoint sdesc (ss : list N) : Prop :=
+    match ss with
+    | [] => True
+    | s :: t => (forall u, In u t -> u < s) /\ sdesc t
+    end.
+  Hypothesis srcs_desc : sdesc srcs.
+  Hypothesis srcs_pos : forall s, In s srcs -> 0 < s.
+
+  Lemma value_of_interp : forall m rv, value_of' m rv = interp' m rv.
+  Proof. reflexivity. Qed.
+
+  Lemma resolve_flat : forall fixed c, resolve' fixed false c = run_flat fixed (flat c srcs) (rst0 K R V).
+  Proof. intros. unfold resolve. apply run_srcs_flat. Qed.
+
+  Lemma in_flat : forall c ss t, In t (flat c ss) <-> In (fst t) ss /\ In (snd t) (src_kvs c (fst t)).
+  Proof.
+    intros c ss [s kv]. unfold flat. rewrite in_flat_map. simpl. split.
+    - intros (s' & Hs & Hin). apply in_map_iff in Hin. destruct Hin as (kv' & E & Hin). inversion E; subst. auto.
+    - intros [Hs Hin]. exists s. split; auto. apply in_map; auto.
+  Qed.
+
+  Lemma flat_desc : forall c ss, sdesc ss -> desc (flat c ss).
+  Proof.
+    induction ss as [|s ss IH]; intros H; simpl; auto.
+    destruct H as [H1 H2]. apply desc_app; auto.
+    - induction (src_kvs c s) as [|kv l IHl]; simpl; auto. split; auto.
+      intros u Hu. apply in_map_iff in Hu. destruct Hu as (x & <- & _). simpl. lia.
+    - intros a b' Ha Hb. apply in_map_iff in Ha. destruct Ha as (x & <- & _). simpl.
+      apply in_flat in Hb. destruct Hb as [Hb _]. specialize (H1 _ Hb). lia.
+  Qed.
+
+  Lemma flat_pos : forall c t, In t (flat c srcs) -> 0 < fst t.
+  Proof. intros c t H. apply in_flat in H. apply srcs_pos. tauto. Qed.
+
+  Lemma inv_resolve : forall fixed c, Inv fixed (flat c srcs) (resolve' fixed false c).
+  Proof. intros. rewrite resolve_flat. apply inv_run. apply flat_desc, srcs_desc. apply flat_pos. Qed.
+
+  (* the entries of source s that count for lk *)
+  Definition hs (c : cfg K R) (lk : K) (s : N) : list ent := filter (hits lk) (map (pair s) (src_kvs c s)).
+
+  Lemma hits_known : forall lk m s kv, known lk = Some m ->
+    hits lk (s, kv) = sets_param keqb lower m kv && eligible src_local m s.
+  Proof.
+    intros lk m s [k rv] Hk. unfold hits, sets_param, elig, eligible, lk_of. simpl.
+    rewrite (known_name _ _ Hk). destruct (keqb (lower k) lk) eqn:E; simpl; auto.
+    apply keqb_eq in E. rewrite E, Hk. reflexivity.
+  Qed.
+
+  Lemma hs_setters : forall c lk m s, known lk = Some m -> map rv_of (hs c lk s) = setters' c m s.
+  Proof.
+    intros c lk m s Hk. unfold hs, setters.
+    induction (src_kvs c s) as [|kv l IH]; simpl.
+    - destruct (eligible src_local m s); reflexivity.
+    - rewrite (hits_known lk m s kv Hk).
+      destruct (eligible src_local m s) eqn:He.
+      + rewrite andb_true_r. destruct (sets_param keqb lower m kv); simpl; [f_equal|]; rewrite <- IH; reflexivity.
+      + rewrite andb_false_r. exact IH.
+  Qed.
+
+  Lemma hs_fst : forall c lk s t, In t (hs c lk s) -> fst t = s /\ hits lk t = true.
+  Proof.
+    intros c lk s t H. unfold hs in H. apply filter_In in H. destruct H as [H1 H2]. split; auto.
+    apply in_map_iff in H1. destruct H1 as (x & <- & _). reflexivity.
+  Qed.
+
+  Lemma find_app' : forall (f : ent -> bool) A B, find f (A ++ B) = match find f A with Some x => Some x | None => find f B end.
+  Proof. induction A as [|a A IH]; intros; simpl; auto. destruct (f a); auto. Qed.
+
+  Lemma find_filter_hd : forall (f : ent -> bool) A, find f A = hd_error (filter f A).
+  Proof. induction A as [|a A IH]; simpl; auto. destruct (f a); auto. Qed.
+
+  Definition nonempty {A} (l : list A) : bool := match l with [] => false | _ => true end.
+
+  Lemma find_flat : forall c lk ss,
+    find (hits lk) (flat c ss) = match find (fun s => nonempty (hs c lk s)) ss with
+                                 | Some s => hd_error (hs c lk s)
+                                 | None => None
+                                 end.
+  Proof.
+    induction ss as [|s ss IH]; simpl; auto.
+    rewrite find_app', find_filter_hd. fold (hs c lk s).
+    destruct (hs c lk s) eqn:E; simpl; auto. now rewrite E.
+  Qed.
+
+  Lemma nonempty_hs : forall c lk m s, known lk = Some m ->
+    nonempty (hs c lk s) = match setters' c m s with [] => false | _ => true end.
+  Proof.
+    intros. rewrite <- (hs_setters c lk m s H). destruct (hs c lk s); reflexivity.
+  Qed.
+
+  Lemma find_ext' : forall (f g : N -> bool) l, (forall x, f x = g x) -> find f l = find g l.
+  Proof. induction l as [|a l IH]; intros; simpl; auto. rewrite H. destruct (g a); auto. Qed.
+
+  Lemma top_flat : forall c lk m, known lk = Some m ->
+    top (flat c srcs) lk = match deciding' c m with Some s => s | None => 0 end.
+  Proof.
+    intros c lk m Hk. unfold top, deciding. rewrite find_flat.
+    rewrite (find_ext' _ (fun s => match setters' c m s with [] => false | _ => true end)).
+    2:{ intros; now apply nonempty_hs. }
+    destruct (find _ srcs) as [s|] eqn:E; auto.
+    apply find_some in E. destruct E as [_ E]. rewrite <- (nonempty_hs c lk m s Hk) in E.
+    destruct (hs c lk s) as [|t l] eqn:E2; [discriminate|]. simpl.
+    assert (Hin : In t (hs c lk s)) by (rewrite E2; simpl; auto).
+    now apply hs_fst in Hin.
+  Qed.
+
+  Lemma filter_filter' : forall (f g : ent -> bool) l, filter f (filter g l) = filter (fun x => g x && f x) l.
+  Proof.
+    induction l as [|a l IH]; simpl; auto. destruct (g a); simpl; [destruct (f a)|]; rewrite IH; auto.
+  Qed.
+
+  Lemma filter_all_true : forall (f : ent -> bool) l, (forall x, In x l -> f x = true) -> filter f l = l.
+  Proof.
+    induction l as [|a l IH]; intros H; simpl; auto. rewrite H by (simpl; auto). f_equal. apply IH. intros; apply H; simpl; auto.
+  Qed.
+  Lemma filter_all_false : forall (f : ent -> bool) l, (forall x, In x l -> f x = false) -> filter f l = [].
+  Proof.
+    induction l as [|a l IH]; intros H; simpl; auto. rewrite H by (simpl; auto). apply IH. intros; apply H; simpl; auto.
+  Qed.
+
+  Lemma winners_src : forall c lk s0 ss, sdesc ss ->
+    filter (fun t => hits lk t && (fst t =? s0)) (flat c ss) = if existsb (N.eqb s0) ss then hs c lk s0 else [].
+  Proof.
+    induction ss as [|s ss IH]; intros Hd; simpl; auto.
+    destruct Hd as [H1 H2]. rewrite filter_app, (IH H2).
+    destruct (s0 =? s) eqn:E; simpl.
+    - apply N.eqb_eq in E. subst s0.
+      assert (Hno : existsb (N.eqb s) ss = false).
+      { destruct (existsb (N.eqb s) ss) eqn:Ex; auto. apply existsb_exists in Ex. destruct Ex as (x & Hx & Ex).
+        apply N.eqb_eq in Ex. subst x. specialize (H1 _ Hx). lia. }
+      rewrite Hno, app_nil_r. unfold hs. rewrite <- filter_filter'.
+      rewrite (filter_all_true (fun t => fst t =? s)); auto.
+      intros x Hx. apply filter_In in Hx. destruct Hx as [Hx _]. apply in_map_iff in Hx. destruct Hx as (y & <- & _). simpl. apply N.eqb_refl.
+    - rewrite filter_all_false; auto.
+      intros x Hx. apply in_map_iff in Hx. destruct Hx as (y & <- & _). simpl.
+      rewrite N.eqb_sym, E. apply andb_false_r.
+  Qed.
+
+  Lemma deciding_in : forall (c : cfg K R) (m : pmeta K V) s, deciding' c m = Some s -> In s srcs /\ setters' c m s <> [].
+  Proof.
+    intros c m s H. unfold deciding in H. apply find_some in H. destruct H as [H1 H2]. split; auto.
+    intros E. rewrite E in H2. discriminate.
+  Qed.
+
+  Lemma winners_flat : forall c lk m, known lk = Some m ->
+    winners (flat c srcs) lk = match deciding' c m with Some s => hs c lk s | None => [] end.
+  Proof.
+    intros c lk m Hk. unfold winners, wins. rewrite (top_flat c lk m Hk).
+    destruct (deciding' c m) as [s|] eqn:E.
+    - rewrite winners_src by exact srcs_desc.
+      destruct (deciding_in c m s E) as [Hin _].
+      replace (existsb (N.eqb s) srcs) with true; auto.
+      symmetry. apply existsb_exists. exists s. split; auto. apply N.eqb_refl.
+    - apply filter_all_false. intros x Hx. pose proof (flat_pos c x Hx) as Hp.
+      replace (fst x =? 0) with false; [apply andb_false_r|]. symmetry. apply N.eqb_neq. lia.
+  Qed.
+
+  (* the property's value of m *)
+  Definition spec_outcome (c : cfg K R) (m : pmeta K V) : option V :=
+    match deciding' c m with
+    | None => Some (pm_init m)
+    | Some s => match rev (setters' c m s) with
+                | [] => Some (pm_init m)
+                | rv :: _ => value_of' m rv
+                end
+    end.
+  (* fatal: fixed code = the deciding source holds a fatal value; pinned code = any eligible source does *)
+  Definition SpecFatal (fixed : bool) (c : cfg K R) : Prop :=
+    exists lk m s rv, known lk = Some m /\ In s srcs /\ (fixed = true -> deciding' c m = Some s)
+                      /\ In rv (setters' c m s) /\ value_of' m rv = None.
+
+  Lemma lastval_flat : forall c lk m, known lk = Some m ->
+    lastval (flat c srcs) lk m = match deciding' c m with
+                                 | None => None
+                                 | Some s => match rev (setters' c m s) with [] => None | rv :: _ => interp' m rv end
+                                 end.
+  Proof.
+    intros c lk m Hk. unfold lastval. rewrite (winners_flat c lk m Hk).
+    destruct (deciding' c m) as [s|]; auto.
+    rewrite <- (hs_setters c lk m s Hk), <- map_rev. destruct (rev (hs c lk s)); reflexivity.
+  Qed.
+
+  Lemma fatal_flat : forall fixed c, FatalIn fixed (flat c srcs) <-> SpecFatal fixed c.
+  Proof.
+    intros fixed c. split.
+    - intros (t & m & Hin & Hk & He & Ht & Hi).
+      destruct t as [s kv]. apply in_flat in Hin. simpl in Hin. destruct Hin as [Hs Hkv].
+      exists (lk_of (s, kv)), m, s, (rv_of (s, kv)). split; auto. split; auto.
+      assert (Hh : In (s, kv) (hs c (lk_of (s, kv)) s)).
+      { unfold hs. apply filter_In. split; [apply in_map; auto|now apply hits_self]. }
+      split; [|split; auto].
+      + intros Hf. specialize (Ht Hf). rewrite (top_flat c _ m Hk) in Ht. simpl in Ht.
+        destruct (deciding' c m) as [s'|] eqn:E; [now subst|].
+        specialize (srcs_pos _ Hs). lia.
+      + rewrite <- (hs_setters c _ m s Hk). apply in_map_iff. exists (s, kv). auto.
+    - intros (lk & m & s & rv & Hk & Hs & Hd & Hin & Hv).
+      rewrite <- (hs_setters c lk m s Hk) in Hin. apply in_map_iff in Hin. destruct Hin as (t & <- & Ht).
+      destruct (hs_fst c lk s t Ht) as [Hf Hh]. destruct (hits_lk _ _ Hh) as [Hl He].
+      exists t, m. split.
+      { unfold hs in Ht. apply filter_In in Ht. destruct Ht as [Ht _].
+        apply in_flat. rewrite Hf. split; auto. apply in_map_iff in Ht. destruct Ht as (x & <- & Hx). exact Hx. }
+      rewrite Hl. repeat split; auto.
+      intros Hfx. rewrite (top_flat c lk m Hk), (Hd Hfx). exact Hf.
+  Qed.
+
+  (* ---- main characterisation: the loop computes what the property says ---- *)
+  Theorem resolve_spec : forall fixed c,
+    match resolve' fixed false c with
+    | None => SpecFatal fixed c
+    | Some st => ~ SpecFatal fixed c
+                 /\ forall lk m, known lk = Some m -> Some (effective keqb st m) = spec_outcome c m
+    end.
+  Proof.
+    intros fixed c. pose proof (inv_resolve fixed c) as H.
+    destruct (resolve' fixed false c) as [st|]; simpl in H.
+    - destruct H as (Hnf & _ & Hval). split.
+      + intros HF. apply Hnf. now apply fatal_flat.
+      + intros lk m Hk. unfold effective, spec_outcome. rewrite (Hval lk m Hk), (lastval_flat c lk m Hk).
+        destruct (deciding' c m) as [s|] eqn:Ed; auto.
+        destruct (rev (setters' c m s)) as [|rv l] eqn:Er; auto.
+        change (value_of' m rv) with (interp' m rv). destruct (interp' m rv) eqn:Ei; auto.
+        exfalso. apply Hnf. apply fatal_flat. exists lk, m, s, rv.
+        destruct (deciding_in c m s Ed) as [Hs _]. repeat split; auto.
+        apply in_rev. rewrite Er. simpl; auto.
+    - now apply fatal_flat.
+  Qed.
+
+  (* ================= part 3: the property's clauses ================= *)
+  (* same error outcome, and on success the same value for every parameter *)
+  Definition res_equiv (r r' : option rst') : Prop :=
+    (r = None <-> r' = None)
+    /\ forall st st', r = Some st -> r' = Some st' ->
+                      forall lk m, known lk = Some m -> effective keqb st m = effective keqb st' m.
+
+  Lemma resolve_congr : forall fixed c c',
+    (forall lk m, known lk = Some m -> spec_outcome c m = spec_outcome c' m) ->
+    (SpecFatal fixed c <-> SpecFatal fixed c') ->
+    res_equiv (resolve' fixed false c) (resolve' fixed false c').
+  Proof.
+    intros fixed c c' Ho Hf. pose proof (resolve_spec fixed c) as H1. pose proof (resolve_spec fixed c') as H2.
+    destruct (resolve' fixed false c) as [st|], (resolve' fixed false c') as [st'|]; split.
+    - split; discriminate.
+    - intros x y Ex Ey lk m Hk. inversion Ex; inversion Ey; subst.
+      destruct H1 as [_ H1], H2 as [_ H2]. specialize (H1 lk m Hk). specialize (H2 lk m Hk).
+      rewrite (Ho lk m Hk) in H1. congruence.
+    - destruct H1 as [H1 _]. exfalso. apply H1. now apply Hf.
+    - intros; discriminate.
+    - destruct H2 as [H2 _]. exfalso. apply H2. now apply Hf.
+    - intros; discriminate.
+    - tauto.
+    - intros; discriminate.
+  Qed.
+
+  Definition same_setters (c c' : cfg K R) : Prop :=
+    forall lk m s, known lk = Some m -> setters' c m s = setters' c' m s.
+
+  Lemma same_setters_deciding : forall c c' lk m, same_setters c c' -> known lk = Some m -> deciding' c m = deciding' c' m.
+  Proof.
+    intros c c' lk m H Hk. unfold deciding. apply find_ext'. intros s. now rewrite (H lk m s Hk).
+  Qed.
+
+  Lemma same_setters_equiv : forall fixed c c', same_setters c c' ->
+    res_equiv (resolve' fixed false c) (resolve' fixed false c').
+  Proof.
+    intros fixed c c' H. apply resolve_congr.
+    - intros lk m Hk. unfold spec_outcome. rewrite (same_setters_deciding c c' lk m H Hk).
+      destruct (deciding' c' m); auto. now rewrite (H lk m n Hk).
+    - split; intros (lk & m & s & rv & Hk & Hs & Hd & Hin & Hv); exists lk, m, s, rv; repeat split; auto.
+      + intros Hf. rewrite <- (same_setters_deciding c c' lk m H Hk). auto.
+      + now rewrite <- (H lk m s Hk).
+      + intros Hf. rewrite (same_setters_deciding c c' lk m H Hk). auto.
+      + now rewrite (H lk m s Hk).
+  Qed.
+
+  (* c' differs from c only in what source s0 says about parameter m0 *)
+  Definition differ_only (c c' : cfg K R) (s0 : N) (m0 : pmeta K V) : Prop :=
+    (forall s, s <> s0 -> src_kvs c' s = src_kvs c s)
+    /\ filter (fun kv => negb (sets_param keqb lower m0 kv)) (src_kvs c' s0)
+       = filter (fun kv => negb (sets_param keqb lower m0 kv)) (src_kvs c s0).
+
+  Lemma filter_through : forall (f g : K * R -> bool) l l',
+    (forall kv, f kv = true -> g kv = true) -> filter g l = filter g l' -> filter f l = filter f l'.
+  Proof.
+    intros f g l l' Hfg H.
+    assert (E : forall x, filter f x = filter f (filter g x)).
+    { induction x as [|a x IH]; simpl; auto. destruct (f a) eqn:Ef.
+      - rewrite (Hfg a Ef). simpl. rewrite Ef. now f_equal.
+      - destruct (g a); simpl; [rewrite Ef|]; auto. }
+    rewrite (E l), (E l'), H. reflexivity.
+  Qed.
+
+  Lemma differ_only_other : forall c c' s0 lk0 m0 lk m s, differ_only c c' s0 m0 ->
+    known lk0 = Some m0 -> known lk = Some m -> lk <> lk0 -> setters' c m s = setters' c' m s.
+  Proof.
+    intros c c' s0 lk0 m0 lk m s [H1 H2] Hk0 Hk Hn. unfold setters.
+    destruct (N.eq_dec s s0) as [->|Hs]; [|now rewrite (H1 s Hs)].
+    destruct (eligible src_local m s0); auto. f_equal.
+    apply (filter_through (sets_param keqb lower m) (fun kv => negb (sets_param keqb lower m0 kv))); auto.
+    intros kv Hkv. unfold sets_param in *. rewrite (known_name _ _ Hk) in Hkv. rewrite (known_name _ _ Hk0).
+    apply keqb_eq in Hkv. rewrite Hkv. rewrite keqb_neq; auto.
+  Qed.
+
+  Lemma differ_only_other_src : forall c c' s0 m0 (m : pmeta K V) s, differ_only c c' s0 m0 -> s <> s0 ->
+    setters' c m s = setters' c' m s.
+  Proof. intros c c' s0 m0 m s [H1 _] Hs. unfold setters. now rewrite (H1 s Hs). Qed.
+
+  Lemma known_inj : forall lk m m', known lk = Some m -> known lk = Some m' -> m = m'.
+  Proof. intros. congruence. Qed.
+
+  (* datastore values of a local-only parameter are irrelevant (both code variants) *)
+  Theorem local_only_ignored : forall fixed c c' s0 lk0 m0,
+    known lk0 = Some m0 -> pm_local m0 = true -> src_local s0 = false ->
+    differ_only c c' s0 m0 ->
+    res_equiv (resolve' fixed false c) (resolve' fixed false c').
+  Proof.
+    intros fixed c c' s0 lk0 m0 Hk0 Hl Hs Hd. apply same_setters_equiv.
+    intros lk m s Hk. destruct (keqb lk lk0) eqn:E.
+    - apply keqb_eq in E. subst lk. rewrite Hk0 in Hk. inversion Hk; subst m.
+      destruct (N.eq_dec s s0) as [->|Hn]; [|now apply (differ_only_other_src c c' s0 m0)].
+      unfold setters, eligible. now rewrite Hl, Hs.
+    - apply (differ_only_other c c' s0 lk0 m0 lk m s); auto. intros ->. now rewrite keqb_refl in E.
+  Qed.
+
+  Lemma find_agree : forall (f g : N -> bool) ss s0 s1, sdesc ss ->
+    find f ss = Some s1 -> (forall s, s <> s0 -> f s = g s) -> s0 < s1 -> find g ss = Some s1.
+  Proof.
+    induction ss as [|a ss IH]; intros s0 s1 Hd Hf Hfg Hlt; simpl in *; [discriminate|].
+    destruct Hd as [H1 H2]. destruct (f a) eqn:Ef.
+    - inversion Hf; subst a. rewrite <- (Hfg s1) by lia. now rewrite Ef.
+    - assert (Hin : In s1 ss) by (apply find_some in Hf; tauto).
+      specialize (H1 _ Hin). rewrite <- (Hfg a) by lia. rewrite Ef. eapply IH; eauto.
+  Qed.
+
+  (* a value shadowed by a higher-priority source is irrelevant: result AND error outcome (repaired code) *)
+  Theorem shadowed_irrelevant_fixed : forall c c' s0 s1 lk0 m0,
+    known lk0 = Some m0 -> deciding' c m0 = Some s1 -> s0 < s1 ->
+    differ_only c c' s0 m0 ->
+    res_equiv (resolve' true false c) (resolve' true false c').
+  Proof.
+    intros c c' s0 s1 lk0 m0 Hk0 Hd Hlt Hdiff.
+    assert (Hd' : deciding' c' m0 = Some s1).
+    { unfold deciding in *. apply (find_agree _ _ srcs s0 s1 srcs_desc Hd); auto.
+      intros s Hs. now rewrite (differ_only_other_src c c' s0 m0 m0 s Hdiff Hs). }
+    assert (Hs1 : setters' c m0 s1 = setters' c' m0 s1) by (apply (differ_only_other_src c c' s0 m0); auto; lia).
+    assert (Hoth : forall lk m s, known lk = Some m -> lk <> lk0 -> setters' c m s = setters' c' m s).
+    { intros. now apply (differ_only_other c c' s0 lk0 m0 lk m s). }
+    assert (Hdec : forall lk m, known lk = Some m -> deciding' c m = deciding' c' m).
+    { intros lk m Hk. destruct (keqb lk lk0) eqn:E.
+      - apply keqb_eq in E. subst lk. rewrite Hk0 in Hk. inversion Hk; subst m. congruence.
+      - unfold deciding. apply find_ext'. intros s. rewrite (Hoth lk m s Hk); auto. intros ->. now rewrite keqb_refl in E. }
+    assert (Hset : forall lk m s, known lk = Some m -> deciding' c m = Some s -> setters' c m s = setters' c' m s).
+    { intros lk m s Hk Hds. destruct (keqb lk lk0) eqn:E.
+      - apply keqb_eq in E. subst lk. rewrite Hk0 in Hk. inversion Hk; subst m. rewrite Hd in Hds. inversion Hds; subst s. exact Hs1.
+      - apply (Hoth lk m s Hk). intros ->. now rewrite keqb_refl in E. }
+    apply resolve_congr.
+    - intros lk m Hk. unfold spec_outcome. rewrite <- (Hdec lk m Hk).
+      destruct (deciding' c m) as [s|] eqn:E; auto. now rewrite (Hset lk m s Hk E).
+    - split; intros (lk & m & s & rv & Hk & Hs & Hdd & Hin & Hv); exists lk, m, s, rv; specialize (Hdd eq_refl);
+        repeat split; auto.
+      + intros _. now rewrite <- (Hdec lk m Hk).
+      + now rewrite <- (Hset lk m s Hk Hdd).
+      + intros _. now rewrite (Hdec lk m Hk).
+      + rewrite (Hset lk m s Hk); auto. now rewrite (Hdec lk m Hk).
+  Qed.
+
+  (* ---- key order ---- *)
+
+  Lemma perm_filter : forall (f : K * R -> bool) l l', Permutation l l' -> Permutation (filter f l) (filter f l').
+  Proof.
+    intros f l l' H. induction H; simpl; auto.
+    - destruct (f x); auto.
+    - destruct (f x), (f y); auto. apply perm_swap.
+    - eapply perm_trans; eauto.
+  Qed.
+
+  Lemma filter_short : forall (f : K * R -> bool) (g : K * R -> K) l,
+    NoDup (map g l) -> (forall x y, f x = true -> f y = true -> g x = g y) -> (length (filter f l) <= 1)%nat.
+  Proof.
+    intros f g l Hnd Hfg. induction l as [|a l IH]; simpl; auto.
+    inversion Hnd as [|? ? Hni Hnd']; subst. specialize (IH Hnd').
+    destruct (f a) eqn:Ea; auto. simpl.
+    destruct (filter f l) as [|b0 r] eqn:E; auto.
+    exfalso. assert (Hb : In b0 (filter f l)) by (rewrite E; simpl; auto).
+    apply filter_In in Hb. destruct Hb as [Hb1 Hb2]. apply Hni. rewrite (Hfg a b0 Ea Hb2). now apply in_map.
+  Qed.
+
+  Lemma perm_short_eq : forall A (l l' : list A), Permutation l l' -> (length l <= 1)%nat -> l = l'.
+  Proof.
+    intros A l l' H Hl. destruct l as [|a [|b0 r]]; simpl in Hl; try lia.
+    - now apply Permutation_nil in H.
+    - now apply Permutation_length_1_inv in H.
+  Qed.
+
+  (* no source spells a parameter name in two ways *)
+  Definition unambiguous (c : cfg K R) : Prop := forall s, NoDup (map (fun kv => lower (fst kv)) (src_kvs c s)).
+
+  Theorem order_independent_unsorted : forall fixed c c',
+    unambiguous c -> (forall s, Permutation (src_kvs c s) (src_kvs c' s)) ->
+    res_equiv (resolve' fixed false c) (resolve' fixed false c').
+  Proof.
+    intros fixed c c' Hu Hp. apply same_setters_equiv. intros lk m s Hk. unfold setters.
+    destruct (eligible src_local m s); auto. f_equal.
+    apply perm_short_eq; [apply perm_filter, Hp|].
+    apply (filter_short _ (fun kv => lower (fst kv))); [apply Hu|].
+    intros x y Hx Hy. unfold sets_param in *. apply keqb_eq in Hx, Hy. congruence.
+  Qed.
 End P.
+
+(* ---- the byte-string instance ---- *)
+Lemma beqb_eq : forall a b, beqb a b = true <-> a = b.
+Proof.
+  induction a as [|x a IH]; destruct b as [|y b0]; simpl; split; intros H; try discriminate; auto.
+  - apply andb_true_iff in H. destruct H as [H1 H2]. apply N.eqb_eq in H1. apply IH in H2. now subst.
+  - inversion H; subst. rewrite N.eqb_refl. simpl. now apply IH.
+Qed.
+
+Lemma aget_in : forall B (k : bytes) (v : B) l, aget beqb k l = Some v -> In (k, v) l.
+Proof.
+  induction l as [|[k' v'] l IH]; simpl; intros H; [discriminate|].
+  destruct (beqb k k') eqn:E.
+  - apply beqb_eq in E. inversion H; subst. auto.
+  - right; auto.
+Qed.
+
+Lemma known_in_name : forall table,
+  forallb (fun e => beqb (lower_b (pm_name (snd e))) (fst e)) table = true ->
+  forall lk m, known_in table lk = Some m -> lower_b (pm_name m) = lk.
+Proof.
+  intros table H lk m Hk. unfold known_in in Hk. apply aget_in in Hk.
+  rewrite forallb_forall in H. specialize (H _ Hk). simpl in H. now apply beqb_eq.
+Qed.
